@@ -207,6 +207,20 @@ std::string fnId(const FunctionDecl* FD)
       if (MD->isConst()) s += " const";
       if (MD->getRefQualifier() == RQ_RValue) s += " &&";
    }
+   // two instantiations that differ only in a closure type print alike ("f<(lambda)>((lambda))"): the later one is
+   // told apart by the closure types among its template arguments
+   static std::map<std::string, const Decl*> taken;
+   auto tk = taken.find(s);
+   if (tk != taken.end() and tk->second != FD->getCanonicalDecl()) {
+      std::string tag;
+      if (auto Args = FD->getTemplateSpecializationArgs())
+         for (auto& A : Args->asArray())
+            if (A.getKind() == TemplateArgument::Type)
+               if (auto RD = A.getAsType()->getAsCXXRecordDecl())
+                  if (RD->isLambda()) tag += (tag.empty() ? "" : ", ") + recName(RD);
+      if (!tag.empty()) s += " [with " + tag + "]";
+   }
+   taken.emplace(s, FD->getCanonicalDecl());
    C.idCache[FD->getCanonicalDecl()] = s;
    return s;
 }
@@ -487,7 +501,7 @@ struct BodyWriter {
          o["name"] = D->getNameAsString();
          if (auto P = dyn_cast<ParmVarDecl>(D)) {
             bool own = false;
-            for (auto Q : Fn->parameters()) if (Q == P) own = true;
+            if (Fn) for (auto Q : Fn->parameters()) if (Q == P) own = true;
             o["kind"] = own ? "parm" : "outerparm";
             o["idx"] = (int64_t)P->getFunctionScopeIndex();
          }
@@ -928,8 +942,11 @@ struct Scanner : RecursiveASTVisitor<Scanner> {
       o["is_definition"] = (bool)V->isThisDeclarationADefinition();
       if (V->hasInit()) {
          o["constant_init"] = V->hasConstantInitialization();
-         BodyWriter W(nullptr_fn());
+         // a function-local static is initialised in the context of its function (it may name the parameters)
+         const FunctionDecl* encl = dyn_cast_or_null<FunctionDecl>(V->getParentFunctionOrMethod());
+         BodyWriter W(encl ? encl : nullptr_fn());
          o["init"] = W.X(V->getInit());
+         if (encl) o["in_function"] = fnId(encl);
       }
       globals.push_back(std::move(o));
       return true;
